@@ -337,7 +337,7 @@ func storeGen(g *G, tier string) []M {
 			// directed: store, damage that very entry, retrieve it, store again, retrieve
 			id := g.Pick(storeIDs)
 			steps = append(steps, M{"s": "store", "id": id, "body": float64(g.Int(40)), "nc": false},
-				M{"s": "corrupt", "id": id, "how": g.Pick([]string{"truncate0", "garbage", "foreign", "delete"})},
+				M{"s": "corrupt", "id": id, "how": g.Pick([]string{"truncate0", "garbage", "foreign", "delete", "dir"})},
 				M{"s": "retrieve", "id": id},
 				M{"s": "store", "id": id, "body": float64(g.Int(40)), "nc": g.Chance(0.5)},
 				M{"s": "retrieve", "id": id})
@@ -561,6 +561,15 @@ func crashExplore(op M) any {
 			violations = append(violations, fmt.Sprintf("crash at %s: the entry of another identifier is damaged", what))
 		}
 		if what != "completion" {
+			// a later store under ANOTHER identifier must not change what the crashed identifier
+			// gives: still an error, the complete previous or the complete new document
+			if err := fs.Store(storeDoc("neighbour", 3), nil); err != nil {
+				violations = append(violations, fmt.Sprintf("crash at %s: a later store under another identifier fails: %v", what, err))
+			} else if d3, err := fs.Retrieve(id, nil); err == nil && !(d3 != nil && (proto.Equal(d3, newDoc) || (oldDoc != nil && proto.Equal(d3, oldDoc)))) {
+				violations = append(violations, fmt.Sprintf("crash at %s, then a store under another identifier: retrieve of the crashed identifier returns neither the previous nor the new document nor an error: %v", what, docView(d3, nil)))
+			} else if err != nil && kind != "err" {
+				violations = append(violations, fmt.Sprintf("crash at %s, then a store under another identifier: retrieve of the crashed identifier now fails (%v), before it gave the %s document", what, err, kind))
+			}
 			if err := fs.Store(follow, nil); err != nil {
 				violations = append(violations, fmt.Sprintf("crash at %s: a later store of the same identifier fails: %v", what, err))
 			} else if d2, err := fs.Retrieve(id, nil); err != nil || !proto.Equal(d2, follow) {
